@@ -442,32 +442,51 @@ Proof.
   destruct (fill_entries _ _ _ _ Hr Hx) as [[E Hn] | [w [Hw E]]]; subst x; auto.
 Qed.
 
+(* a scanned type means some pair exists *)
+Lemma ty_from_present : forall cs t, ty_from None cs = Some (Some t) -> exists w, In (Some w) cs.
+Proof.
+  induction cs as [|c r IH]; intros t H; simpl in H. discriminate.
+  destruct c as [w|]. exists w. left; auto.
+  destruct (IH _ H) as [w Hw]. exists w. right; auto.
+Qed.
+Lemma ty_from_no_present : forall cs acc, (forall w, ~ In (Some w) cs) -> ty_from acc cs = Some acc.
+Proof.
+  induction cs as [|c r IH]; intros acc H; simpl; auto.
+  destruct c as [w|]. exfalso. apply (H w). left; auto. apply IH. intros w Hw. apply (H w). right; auto.
+Qed.
+
 Lemma prepare_in_domain : forall u W, in_domainb u W = true ->
-  (edge_ty W = None /\ has_null W = false /\ prepare u W = PEmpty) \/
+  (edge_ty W = None /\ prepare u W = PEmpty) \/
   (exists s M, prepare u W = PSolve (has_null W) s M /\ dense M (nrows W) (ncols W) /\ float_safe M /\
                (has_null W = false -> M = fill 0 W)).
 Proof.
   intros u W H. unfold in_domainb in H.
   repeat (apply andb_true_iff in H; let H' := fresh "D" in destruct H as [H H']).
-  rename H into Hrect. apply negb_true_iff in D, D0, D1, D2, D3.
-  rename D3 into Hmix, D2 into Ham, D1 into Hneg, D0 into Hso, D into Hb.
+  rename H into Hrect. apply negb_true_iff in D, D0, D1, D2.
+  rename D2 into Hmix, D1 into Hneg, D0 into Hso, D into Hb.
   unfold prepare. rewrite scan_spec, Hmix. cbn [s_ty s_max s_min s_null].
   unfold kf_beyond_2p53 in Hb. apply negb_false_iff in Hb. apply float_safeb_iff in Hb.
+  destruct (edge_ty W) as [t|] eqn:Et; [right | left; auto].
+  (* some pair exists *)
+  assert (Hpres : exists w, In (Some w) (cells W)).
+  { unfold edge_ty in Et. destruct (ty_from None (cells W)) as [o|] eqn:E; [|discriminate]. subst o.
+    eapply ty_from_present; eauto. }
+  destruct Hpres as [w0 Hw0].
+  destruct (edge_ty_some _ _ Hmix Hw0) as [t' [Et' Hall]]. rewrite Et in Et'. inversion Et'; subst t'.
+  destruct (min_from_some (cells W) None w0 Hw0) as [lo Elo]. fold (min_edge W) in Elo.
+  destruct (max_from_some (cells W) None w0 Hw0) as [me Eme]. fold (max_edge W) in Eme.
   destruct (has_null W) eqn:Hn.
   - (* some pair is missing *)
-    right. unfold has_null in Hn. pose proof (has_null_cells_true _ Hn) as HNone.
-    unfold kf_all_missing in Ham. unfold has_null in Ham. rewrite Hn in Ham. simpl in Ham.
-    apply negb_false_iff in Ham. destruct (max_edge W) as [me|] eqn:Eme; [|discriminate]. clear Ham.
+    unfold has_null in Hn. pose proof (has_null_cells_true _ Hn) as HNone.
     destruct (zmax_col_sums W (ncols_pos _ _ Hrect HNone)) as [mx Emx]. rewrite Emx.
     unfold kf_negative_with_missing in Hneg. unfold has_null in Hneg. rewrite Hn, Eme in Hneg. simpl in Hneg.
     unfold filled in Hb. unfold sentinel in Hneg, Hb. rewrite Emx in Hneg, Hb. unfold one_of in Hneg, Hb.
+    rewrite Et in Hneg, Hb. rewrite Eme.
     destruct (present_of_max _ _ Eme) as [wm [Hwm Ewm]].
-    destruct (edge_ty_some _ _ Hmix Hwm) as [t [Et Hall]]. rewrite Et in *.
     set (nev := mx + match t with TFloat => u | _ => 1 end) in *.
     apply Z.leb_gt in Hneg.
     replace (nev >? me) with true by (symmetry; rewrite Z.gtb_ltb; apply Z.ltb_lt; lia).
     assert (Hd : dense (fill nev W) (nrows W) (ncols W)) by (apply fill_dense; auto).
-    destruct (min_from_some (cells W) None wm Hwm) as [lo Elo]. fold (min_edge W) in Elo.
     assert (Hcast : exists M, cast_matrix match t with TBool => DBool | TInt => DInt (get_dtype (oz (min_edge W)) (oz (Some nev))) | TFloat => DFloat end (fill nev W) = Some M).
     { destruct t; simpl; eauto.
       rewrite Elo. simpl. rewrite int_cast_fits; eauto.
@@ -483,28 +502,17 @@ Proof.
   - (* no pair is missing *)
     unfold has_null in Hn. pose proof (has_null_cells_false _ Hn) as HNone.
     unfold filled in Hb. rewrite (fill_complete _ 0 W HNone) in Hb.
-    destruct (edge_ty W) as [t|] eqn:Et.
-    + right.
-      assert (Hd : dense (fill 0 W) (nrows W) (ncols W)) by (apply fill_dense; auto).
-      assert (Hpres : exists w, In (Some w) (cells W)).
-      { unfold edge_ty in Et. destruct (ty_from None (cells W)) as [o|] eqn:E; [|discriminate]. subst o.
-        destruct (cells W) as [|c r] eqn:Ec. simpl in E. discriminate.
-        destruct c as [w|]. exists w. left; auto. exfalso. apply HNone. left; auto. }
-      destruct Hpres as [w0 Hw0].
-      destruct (edge_ty_some _ _ Hmix Hw0) as [t' [Et' Hall]]. rewrite Et in Et'. inversion Et'; subst t'.
-      destruct (min_from_some (cells W) None w0 Hw0) as [lo Elo]. fold (min_edge W) in Elo.
-      destruct (max_from_some (cells W) None w0 Hw0) as [me Eme]. fold (max_edge W) in Eme.
-      assert (Hcast : cast_matrix match t with TBool => DBool | TInt => DInt (get_dtype (oz (min_edge W)) (oz (max_edge W))) | TFloat => DFloat end (fill 0 W) = Some (fill 0 W)).
-      { destruct t; simpl; auto.
-        - rewrite cast_bool_id; auto.
-        - rewrite Elo, Eme. simpl. rewrite int_cast_fits; eauto.
-          + intros w Hw. unfold min_edge in Elo. apply min_from_le in Elo. destruct Elo as [_ L].
-            unfold max_edge in Eme. apply max_from_ge in Eme. destruct Eme as [_ G].
-            specialize (L _ Hw). specialize (G _ Hw). lia.
-          + intros Hc. contradiction.
-          + destruct (present_of_max _ _ Eme) as [wm [Hwm Ewm]]. rewrite <- Ewm. apply fill_present. auto. }
-      rewrite Hcast. exists 0, (fill 0 W). auto.
-    + left. auto.
+    assert (Hd : dense (fill 0 W) (nrows W) (ncols W)) by (apply fill_dense; auto).
+    assert (Hcast : cast_matrix match t with TBool => DBool | TInt => DInt (get_dtype (oz (min_edge W)) (oz (max_edge W))) | TFloat => DFloat end (fill 0 W) = Some (fill 0 W)).
+    { destruct t; simpl; auto.
+      - rewrite cast_bool_id; auto.
+      - rewrite Elo, Eme. simpl. rewrite int_cast_fits; eauto.
+        + intros w Hw. unfold min_edge in Elo. apply min_from_le in Elo. destruct Elo as [_ L].
+          unfold max_edge in Eme. apply max_from_ge in Eme. destruct Eme as [_ G].
+          specialize (L _ Hw). specialize (G _ Hw). lia.
+        + intros Hc. contradiction.
+        + destruct (present_of_max _ _ Eme) as [wm [Hwm Ewm]]. rewrite <- Ewm. apply fill_present. auto. }
+    rewrite Hcast. exists 0, (fill 0 W). auto.
 Qed.
 
 (* ================================================================== E. the final filter *)
@@ -616,7 +624,7 @@ Section WithSolver.
     intros u W Hd. pose proof Hd as Hd'. unfold in_domain, in_domainb in Hd'.
     assert (Hrect : rectb W = true).
     { repeat (apply andb_true_iff in Hd'; destruct Hd' as [Hd' _]). exact Hd'. }
-    unfold mwbm. destruct (prepare_in_domain u W Hd) as [[_ [_ E]] | [s [M [E [HD [HS _]]]]]]; rewrite E.
+    unfold mwbm. destruct (prepare_in_domain u W Hd) as [[_ E] | [s [M [E [HD [HS _]]]]]]; rewrite E.
     - eauto.
     - destruct (solve_contract M _ _ HD HS) as [[_ [_ A]] _].
       destruct (report_total W (has_null W) s (solve M) Hrect A) as [m Em]. rewrite Em. eauto.
@@ -626,7 +634,7 @@ Section WithSolver.
   Theorem C15_valid : forall u W m, in_domain u W -> mwbm solve u W = OK m -> valid W m.
   Proof.
     intros u W m Hd H. unfold mwbm in H.
-    destruct (prepare_in_domain u W Hd) as [[_ [_ E]] | [s [M [E [HD [HS _]]]]]]; rewrite E in H.
+    destruct (prepare_in_domain u W Hd) as [[_ E] | [s [M [E [HD [HS _]]]]]]; rewrite E in H.
     - inversion H. repeat split; constructor.
     - destruct (report W (has_null W) s (solve M)) as [m0|] eqn:Er; inversion H; subst m0.
       destruct (solve_contract M _ _ HD HS) as [[A1 [A2 _]] _].
@@ -646,7 +654,7 @@ Section WithSolver.
     { repeat (apply andb_true_iff in Hd'; destruct Hd' as [Hd' ?]). apply negb_true_iff. assumption. }
     unfold complete in Hc. pose proof (has_null_cells_false _ Hc) as HNone.
     unfold mwbm in H.
-    destruct (prepare_in_domain u W Hd) as [[Et [_ E]] | [s [M [E [HD [HS HM]]]]]]; rewrite E in H.
+    destruct (prepare_in_domain u W Hd) as [[Et E] | [s [M [E [HD [HS HM]]]]]]; rewrite E in H.
     - inversion H; subst m. simpl.
       assert (Hcells : cells W = []).
       { destruct (cells W) as [|c r] eqn:Ec; auto. exfalso. destruct c as [w|].
@@ -896,14 +904,57 @@ Example C15_opt_ex :
   in_domain 2 W /\ complete W /\ mwbm brute_solve 2 W = OK [(0, (1, WF 1)); (2, (0, WF 0))]%nat.
 Proof. repeat split; vm_compute; reflexivity. Qed.
 
-(* ---- D14: each region excluded from in_domain really fails, with a concrete table.
-   kf_all_missing: every pair missing -> TypeError (instead of the empty pairing) *)
-Example C15_all_missing_refuted :
+(* ---- every pair missing (formerly D14a, TypeError; fixed in /repo): the routine returns the empty pairing,
+   whatever the solver (it is not called), the unit and the shape of the table; the empty pairing satisfies the
+   property (validity is vacuous, and no size / optimality is demanded of a table with a missing pair) *)
+Lemma max_from_none_no_present : forall cs, max_from None cs = None -> forall w, ~ In (Some w) cs.
+Proof.
+  intros cs H w Hw. destruct (max_from_some cs None w Hw) as [m E]. congruence.
+Qed.
+
+Lemma all_missing_no_present : forall W, all_missingb W = true ->
+  has_null W = true /\ forall w, ~ In (Some w) (cells W).
+Proof.
+  intros W H. unfold all_missingb in H. apply andb_true_iff in H. destruct H as [Hn Hm]. split; auto.
+  apply negb_true_iff in Hm. destruct (max_edge W) eqn:E; [discriminate|].
+  apply max_from_none_no_present. exact E.
+Qed.
+
+Theorem all_missing_empty : forall solve u W, all_missingb W = true -> mwbm solve u W = OK [].
+Proof.
+  intros solve u W H. destruct (all_missing_no_present W H) as [_ Hno].
+  unfold mwbm, prepare. rewrite scan_from_spec. simpl. rewrite (ty_from_no_present _ None Hno). reflexivity.
+Qed.
+
+Theorem all_missing_holds : forall solve u W, all_missingb W = true ->
+  valid W [] /\
+  prop_ok {| c_unit := u; c_table := W; c_solver := None; c_result := mwbm solve u W |} = true.
+Proof.
+  intros solve u W H. split. repeat split; constructor.
+  destruct (all_missing_no_present W H) as [Hn Hno].
+  unfold prop_ok. cbn [c_table c_result]. rewrite (all_missing_empty solve u W H).
+  unfold mixedb. rewrite (ty_from_no_present _ None Hno). rewrite Hn. reflexivity.
+Qed.
+
+(* such tables now belong to the domain (as long as the table is rectangular and small enough for the
+   float64 class, which is stated on the filled matrix whether or not the solver is called) *)
+Example C15_all_missing_ex :
   let W := [[None; None]; [None; None]] in
-  rectb W = true /\ mixedb W = false /\ kf_all_missing 1 W = true /\
-  forall solve, mwbm solve 1 W = Err TypeError.
+  all_missingb W = true /\ in_domain 1 W /\ forall solve, mwbm solve 1 W = OK [].
 Proof. repeat split. Qed.
 
+(* the check still detects D14a should it return: on the corpus table an observed TypeError is rejected by
+   the executable statement under the three classes that remain open, and by the correspondence *)
+Example all_missing_regression_detected :
+  let c := {| c_unit := 1; c_table := [[None; None]; [None; None]]; c_solver := None; c_result := Err TypeError |} in
+  holds_C15 [(kf_negative_with_missing, ex_kf_negative_with_missing); (kf_beyond_2p53, ex_kf_beyond_2p53);
+             (kf_sentinel_overflow, ex_kf_sentinel_overflow)] c = false /\
+  corr_C15 c = false /\
+  holds_C15 [] {| c_unit := 1; c_table := c_table c; c_solver := None; c_result := OK [] |} = true /\
+  corr_C15 {| c_unit := 1; c_table := c_table c; c_solver := None; c_result := OK [] |} = true.
+Proof. repeat split; vm_compute; reflexivity. Qed.
+
+(* ---- D14: each region still excluded from in_domain really fails, with a concrete table. *)
 (* kf_negative_with_missing: column sums 3 + -5 = -2 and 0, so the replacement value 1 is not above the weight 3 *)
 Example C15_negative_with_missing_refuted :
   let W := [[Some (WI 3); None]; [Some (WI (-5)); None]] in
@@ -957,11 +1008,11 @@ Qed.
 
 (* the classes are exactly the complement of the domain among rectangular single-type tables *)
 Lemma in_domain_or_known : forall u W, rectb W = true -> mixedb W = false ->
-  in_domainb u W = true \/ kf_all_missing u W = true \/ kf_negative_with_missing u W = true \/
+  in_domainb u W = true \/ kf_negative_with_missing u W = true \/
   kf_sentinel_overflow u W = true \/ kf_beyond_2p53 u W = true.
 Proof.
   intros u W H1 H2. unfold in_domainb. rewrite H1, H2. simpl.
-  destruct (kf_all_missing u W); auto. destruct (kf_negative_with_missing u W); auto.
+  destruct (kf_negative_with_missing u W); auto.
   destruct (kf_sentinel_overflow u W); auto. destruct (kf_beyond_2p53 u W); auto.
 Qed.
 
@@ -1025,17 +1076,7 @@ Proof.
     lia.
 Qed.
 
-(* ---- the model's outcome on the first two classes, for every table of the class (not only the witnesses) *)
-Lemma kf_all_missing_outcome : forall solve u W, rectb W = true -> mixedb W = false ->
-  kf_all_missing u W = true -> mwbm solve u W = Err TypeError.
-Proof.
-  intros solve u W Hrect Hmix H. unfold kf_all_missing in H. apply andb_true_iff in H. destruct H as [Hn Hm].
-  apply negb_true_iff in Hm. destruct (max_edge W) eqn:Eme; [discriminate|].
-  unfold mwbm, prepare. rewrite scan_spec, Hmix. cbn [s_ty s_max s_min s_null]. rewrite Hn, Eme.
-  unfold has_null in Hn. pose proof (has_null_cells_true _ Hn) as HNone.
-  destruct (zmax_col_sums W (ncols_pos _ _ Hrect HNone)) as [mx Emx]. rewrite Emx. reflexivity.
-Qed.
-
+(* ---- the model's outcome on the first class, for every table of the class (not only the witness) *)
 Lemma kf_negative_outcome : forall solve u W, rectb W = true -> mixedb W = false ->
   kf_negative_with_missing u W = true -> mwbm solve u W = Err AssertionError.
 Proof.
